@@ -8,6 +8,7 @@ import Driver.ResD
 import Driver.MapD
 import Driver.ClmD
 import Driver.PrtD
+import Driver.BmpD
 /-!
 # op2model — line-protocol driver for the executable model
 
@@ -27,6 +28,7 @@ def handlers : List (String → List String → Option String) :=
   handleMap ::
   handleClm ::
   handlePrt ::
+  handleBmp ::
   []
 
 def dispatch (line : String) : String :=
